@@ -1,10 +1,12 @@
 (* C18 — tenant quotas hold under every interleaving of writers.
    Property theorems only; proofs live in proofs/TenantProofs.v.
 
-   [run (init q targets) sched] : any number of writers (one per element of [targets],
-   the id each creates; ids may repeat = overwrites), started together on an empty
-   tenant, executed in the order [sched] says (a list of writer indices; each occurrence
-   runs that writer's next atomic step: reserve / WAL append / storage put / settle).
+   [run (init q writers) sched] : any number of writers (one per element of [writers]:
+   a creator or a deleter and the id it creates / deletes; ids may repeat = overwrites,
+   deletes racing creates, deletes of absent ids), started together on an empty tenant,
+   executed in the order [sched] says (a list of writer indices; each occurrence runs that
+   writer's next atomic step: reserve / WAL append / storage put / settle for a creator,
+   check / WAL append / guarded get+delete+decrement / return for a deleter).
    Every theorem quantifies over ALL schedules, so it holds at every intermediate
    point of every interleaving, not only at the end. *)
 From Coq Require Import List NArith Bool.
@@ -13,64 +15,100 @@ Import ListNotations.
 Open Scope N_scope.
 
 (* the entities accepted into storage are distinct and never more than the quota, the usage
-   counter never exceeds the quota, every call that returned Ok has its entity in storage,
-   and storage holds nothing that no writer asked for *)
-Theorem C18_quota : forall m targets sched,
-  let s := run (init (Some m) targets) sched in
+   counter never exceeds the quota, every creation that returned Ok has its entity in storage
+   unless a delete of exactly that id was executed, and storage holds nothing that no
+   creator asked for *)
+Theorem C18_quota : forall m writers sched,
+  let s := run (init (Some m) writers) sched in
   NoDup (stored s) /\ nlen (stored s) <= m /\ usage s <= m /\
-  (forall i t, nth_error (threads s) i = Some t -> at_pc t = Done Accepted -> In (target t) (stored s)) /\
-  (forall x, In x (stored s) -> In x targets).
+  (forall i t, nth_error (threads s) i = Some t -> kind t = Creator -> at_pc t = Done Accepted ->
+     In (target t) (stored s) \/ exists j, In (j, target t) (dels s) /\ nth_error writers j = Some (Deleter, target t)) /\
+  (forall x, In x (stored s) -> In (Creator, x) writers).
 Proof. exact quota_holds. Qed.
 
 (* a refused creation leaves nothing behind: the refused writer has appended nothing to
-   the WAL and put nothing into storage ... *)
-Theorem C18_refused_leaves_nothing : forall q targets sched i t,
-  let s := run (init q targets) sched in
+   the WAL, put nothing into storage and deleted nothing ... *)
+Theorem C18_refused_leaves_nothing : forall q writers sched i t,
+  let s := run (init q writers) sched in
   nth_error (threads s) i = Some t -> at_pc t = Done Refused ->
-  (forall x, ~ In (i, x) (wal s)) /\ (forall x, ~ In (i, x) (puts s)).
+  (forall x, ~ In (i, x) (wal s)) /\ (forall x, ~ In (i, x) (puts s)) /\ (forall x, ~ In (i, x) (dels s)).
 Proof. exact refused_wrote_nothing. Qed.
 
 (* ... and the step that refuses it changes neither usage, storage, WAL nor quota *)
 Theorem C18_refusal_changes_nothing : forall s i t',
   nth_error (threads (step s i)) i = Some t' -> at_pc t' = Done Refused ->
   usage (step s i) = usage s /\ stored (step s i) = stored s /\ wal (step s i) = wal s /\
-  puts (step s i) = puts s /\ quota (step s i) = quota s.
+  puts (step s i) = puts s /\ dels (step s i) = dels s /\ quota (step s i) = quota s.
 Proof. exact refusal_changes_nothing. Qed.
 
-(* usage = entities in storage + reservations in flight, at every point; equal at quiescence *)
-Theorem C18_usage_exact : forall q targets sched,
-  let s := run (init q targets) sched in
+(* usage = entities in storage + reservations in flight, at every point of every schedule of
+   creators and deleters; equal at quiescence *)
+Theorem C18_usage_exact : forall q writers sched,
+  let s := run (init q writers) sched in
   usage s = nlen (stored s) + pend (threads s) /\
   (quiescent s = true -> usage s = nlen (stored s)).
 Proof. exact usage_exact. Qed.
 
+(* a delete, at any point of any schedule: deleting an id that is not stored changes neither
+   storage nor usage; deleting a stored id removes exactly that id and frees exactly one unit
+   (no underflow); the other steps of a delete touch neither storage nor usage *)
+Theorem C18_delete_exact : forall q writers sched i t,
+  let s := run (init q writers) sched in
+  nth_error (threads s) i = Some t -> kind t = Deleter ->
+  let s' := step s i in
+  quota s' = quota s /\ puts s' = puts s /\
+  (at_pc t <> Logged -> stored s' = stored s /\ usage s' = usage s) /\
+  (at_pc t = Logged -> ~ In (target t) (stored s) -> stored s' = stored s /\ usage s' = usage s) /\
+  (at_pc t = Logged -> In (target t) (stored s) ->
+     (forall y, In y (stored s') <-> In y (stored s) /\ y <> target t) /\
+     nlen (stored s') + 1 = nlen (stored s) /\ usage s' + 1 = usage s).
+Proof. exact delete_exact. Qed.
+
 (* recovery repeated on the same manager: after n+1 recoveries usage is the stored count and
    storage is untouched; recover is idempotent; at quiescence it changes nothing *)
-Theorem C18_recover_idempotent : forall q targets sched n,
-  let s := run (init q targets) sched in
+Theorem C18_recover_idempotent : forall q writers sched n,
+  let s := run (init q writers) sched in
   usage (Nat.iter (S n) recover s) = nlen (stored s) /\
   stored (Nat.iter (S n) recover s) = stored s /\
   recover (recover s) = recover s /\
   (quiescent s = true -> Nat.iter n recover s = s).
 Proof. exact recover_idempotent. Qed.
 
-(* non-vacuity: quota 1, three writers (ids 1, 2, 1).  Writers 0 and 1 race: 0 reserves, 1 is
+(* non-vacuity: quota 1, three creators (ids 1, 2, 1).  Writers 0 and 1 race: 0 reserves, 1 is
    refused while 0 is still in flight, 0 finishes; then writer 2 (same id as 0) is refused
    because the quota is used up.  Quiescent, one entity, usage 1, the refused writers wrote
    nothing.  With quota 3 the same schedule lets writer 2 overwrite id 1: usage ends at the
    number of stored entities (2), not at the number of accepted calls (3). *)
 Example C18_nonvacuous :
   let sched := [0; 1; 0; 0; 0; 2; 2; 2; 2; 1; 1; 1]%nat in
-  let s := run (init (Some 1) [1; 2; 1]) sched in
-  let s2 := run (init (Some 3) [1; 2; 1]) sched in
+  let w := [(Creator, 1); (Creator, 2); (Creator, 1)] in
+  let s := run (init (Some 1) w) sched in
+  let s2 := run (init (Some 3) w) sched in
   quiescent s = true /\ map result_of (threads s) = [Some Accepted; Some Refused; Some Refused] /\
   stored s = [1] /\ usage s = 1 /\ wal s = [(0%nat, 1)] /\
   quiescent s2 = true /\ map result_of (threads s2) = [Some Accepted; Some Accepted; Some Accepted] /\
   stored s2 = [1; 2] /\ usage s2 = 2.
 Proof. vm_compute. repeat split; reflexivity. Qed.
 
+(* non-vacuity with deletes: quota 1.  Writer 0 creates id 1 (runs alone).  Then a delete of the
+   absent id 7 (writer 1) changes nothing: usage stays 1 and the creation of id 2 (writer 3) is
+   refused.  The delete of id 1 (writer 2) races a re-creation of id 1 (writer 4): 4 is refused
+   while 1 is still stored; after the delete's storage step usage is 0 and writer 5 can create
+   id 3.  A second delete of id 1 (writer 6) finds nothing and frees nothing. *)
+Example C18_nonvacuous_deletes :
+  let w := [(Creator, 1); (Deleter, 7); (Deleter, 1); (Creator, 2); (Creator, 1); (Creator, 3); (Deleter, 1)] in
+  let sched := [0; 0; 0; 0;  1; 1; 1; 1;  3;  2; 2; 4; 2; 2;  5; 5; 6; 6; 6; 5; 5; 6]%nat in
+  let s := run (init (Some 1) w) sched in
+  quiescent s = true /\
+  map result_of (threads s) = [Some Accepted; Some Accepted; Some Accepted; Some Refused; Some Refused;
+                               Some Accepted; Some Accepted] /\
+  stored s = [3] /\ usage s = 1 /\ dels s = [(1%nat, 7); (2%nat, 1); (6%nat, 1)] /\
+  usage (run (init (Some 1) w) [0; 0; 0; 0; 1; 1; 1; 1]%nat) = 1.
+Proof. vm_compute. repeat split; reflexivity. Qed.
+
 Print Assumptions C18_quota.
 Print Assumptions C18_refused_leaves_nothing.
 Print Assumptions C18_refusal_changes_nothing.
 Print Assumptions C18_usage_exact.
+Print Assumptions C18_delete_exact.
 Print Assumptions C18_recover_idempotent.
